@@ -59,7 +59,7 @@ if [ $DEVONLY -eq 0 ]; then
 fi
 mkdir -p "$S/vroot/sim/target"
 for P in "$@"; do
-  out="$("$BIN" check --prop "$P" --tier "${VERIF_TIER:-quick}" --seed "${VERIF_SEED:-1}" --root "$S/vroot" "${DEVARG[@]}" 2>&1)"; rc=$?
+  out="$("$BIN" check --prop "$P" --tier "${VERIF_TIER:-quick}" --seed "${VERIF_SEED:-1}" --root "$S/vroot" --stop-early 1 "${DEVARG[@]}" 2>&1)"; rc=$?
   first="$(echo "$out" | grep -m1 -E '^  C[0-9]+ \[' | cut -c1-220)"
   if [ "$P" = C06 ] && [ $rc -eq 0 ]; then
     # the auxiliary no_std build probe is part of the C06 check (./check runs it through substrates.sh)
